@@ -18,6 +18,7 @@ def check(repo, rep, tier):
     rep.run(rcl.rule_clause_scope, cm, rep, 'C01.V3')
     rep.run(rcl.rule_clause_head, cm, rep, 'C01.H1')
     rep.run(rcl.rule_program_structure, cm, rep, 'C01.V6')
+    rep.run(rcl.rule_program_grouping, cm, rep, 'C01.G0')
     rep.run(rc.rule_body_rules, cm, rep, 'C01.N1', 'all', scope)
     rep.run(rc.rule_exhaustive, cm, rep, 'C01.T1x')
     rep.run(re_.rule_emitted_text_parses, cm, rep, 'C01.T1')
